@@ -82,7 +82,15 @@ def hexint_roundtrip(case):
     env, obj = _env(), OBJ(PS, "HexInt")
     if CTX.mode == "sym":
         hex_facts(v)
-    o = call(REAL(PS, "HexInt.serialize"), obj, env, mklist([v]), 0)
+    if CTX.mode == "sym":
+        # the value sits at an arbitrary position of an arbitrary list of integers
+        n_items, pos = sint("len"), sint("idx")
+        requires(And(pos >= 0, pos < n_items))
+        data = slist("data", "int", n_items)
+        requires(raw_item(data, pos) == v)
+    else:
+        data, pos = mklist([v]), 0
+    o = call(REAL(PS, "HexInt.serialize"), obj, env, data, pos)
     check("serialize-accepts", And(not o.raised, o.value is not None))
     if o.raised or o.value is None:
         return
@@ -144,7 +152,7 @@ def spaces_roundtrip(case):
     """Spaces: k = length of the maximal run capped at max_consecutive; one character; decoder returns [space]*k"""
     off = sint("off")
     requires(And(off >= 0, off <= 34))
-    space = 0
+    space = sint("space") if CTX.mode == "sym" else 0          # any integer stands for "empty" (0 / -1 in the puzzle codecs)
     obj = OBJ(PS, "Spaces", _space=space, _smallest="?", _offset=off, _max_consecutive=35 - off)
     env = _env()
     idx = sint("idx")
@@ -194,7 +202,7 @@ def intspaces_roundtrip(case):
     """IntSpaces: n = spaces*(max_int+1) + v < 36 in one character; decoder gives back [v] + [space]*spaces"""
     mi, ms = sint("mi"), sint("ms")
     requires(And(mi >= 0, ms >= 0, (mi + 1) * (ms + 1) <= 36))
-    space = -1
+    space = sint("space") if CTX.mode == "sym" else -1
     obj = OBJ(PS, "IntSpaces", _space=space, _max_int=mi, _max_num_spaces=ms)
     env = _env()
     idx = sint("idx")
@@ -267,6 +275,7 @@ def multidigit_roundtrip(case):
         return
     k, s = o.value
     check("consumed-in-range", And(k >= 1, k <= d, idx + k <= length(data)))
+    check("a-short-group-only-at-the-end-of-the-data", Or(k == d, idx + k == length(data)))
     check("one-character", length(s) == 1)
     o2 = call(REAL(PS, "MultiDigit.deserialize"), obj, env, pre + s + rest, length(pre))
     check("deserialize-no-exception", not o2.raised)
@@ -341,3 +350,92 @@ def dict_roundtrip(case):
     o2 = call(REAL(PS, "Dict.serialize"), obj, env, mklist([sint("unknown_value")]), 0)
     if not o2.raised and o2.value is not None:
         check("only-dictionary-keys-are-accepted", Or(item(mklist([sint("unknown_value")]), 0) == b0, item(mklist([sint("unknown_value")]), 0) == b1))
+
+
+# ------------------------------------------------------------------------------------------------ leading characters
+def leading_class(cls, **p):
+    """the set of characters a leaf decoder may accept as the first character, as a predicate on the character code
+    (spec used by `leaf_accepts_only` symbolically and by the instance check of the puzzle codecs natively)"""
+    def digit_value(code):
+        return code - 48 if code <= 57 else code - 87
+
+    def alnum(code):
+        return 48 <= code <= 57 or 97 <= code <= 122
+
+    if cls == "HexInt":
+        return lambda code: 48 <= code <= 57 or 97 <= code <= 102 or code in (45, 43)
+    if cls == "Spaces":
+        return lambda code: alnum(code) and digit_value(code) > p["offset"]
+    if cls == "IntSpaces":
+        return lambda code: alnum(code) and digit_value(code) < (p["max_int"] + 1) * (p["max_num_spaces"] + 1)
+    if cls == "MultiDigit":
+        return lambda code: alnum(code) and digit_value(code) < p["base"] ** p["digits"]
+    if cls == "Dict":
+        return lambda code: any(len(a) > 0 and ord(a[0]) == code for a in p["after"])
+    raise KeyError(cls)
+
+
+@harness("C15", cases=[dict(cls=c) for c in ("HexInt", "Spaces", "IntSpaces", "Dict")] +
+         [dict(cls="MultiDigit", base=b, digits=d) for (b, d) in ((2, 1), (2, 5), (3, 3), (6, 2), (36, 1), (5, 2), (2, 3))])
+def leaf_accepts_only(case):
+    """`Lead` for the leaves: at the end of the text every leaf decoder answers None, and it answers something else only
+    if the character at idx belongs to its class (leading_class); with the round trip this gives: every produced text
+    starts in the class"""
+    if CTX.mode != "sym":
+        return
+    text, idx = sstr("text"), sint("idx")
+    requires(And(idx >= 0, idx <= length(text)))
+    env = _env()
+    c0 = _z3.SubString(text.t, idx.t, 1)
+    code = _z3.StrToCode(c0)
+    alnum = _z3.Or(_z3.And(code >= 48, code <= 57), _z3.And(code >= 97, code <= 122))
+    value = _z3.If(code <= 57, code - 48, code - 87)
+    # ground instance of "int(c, 36) of one lower-case alphanumeric character is its digit value" (facts_validation)
+    assume_fact(mk_bool(_z3.Implies(alnum, UF["int36"](c0) == value)))
+    if case.cls == "HexInt":
+        obj = OBJ(PS, "HexInt")
+        use_contract(PS + "::_from_base16", lambda it, a, k: fresh_int("hexvalue"))
+        member = _z3.Or(_z3.And(code >= 48, code <= 57), _z3.And(code >= 97, code <= 102), code == 45, code == 43)
+    elif case.cls == "Spaces":
+        off = sint("offset")
+        requires(And(off >= 0, off <= 34))
+        obj = OBJ(PS, "Spaces", _space=sref("space"), _smallest="g", _offset=off, _max_consecutive=35 - off)
+        member = _z3.And(alnum, value > off.t)
+    elif case.cls == "IntSpaces":
+        mi, ms = sint("max_int"), sint("max_num_spaces")
+        requires(And(mi >= 0, ms >= 0, (mi + 1) * (ms + 1) <= 36))
+        obj = OBJ(PS, "IntSpaces", _space=sref("space"), _max_int=mi, _max_num_spaces=ms)
+        member = _z3.And(alnum, value < (mi.t + 1) * (ms.t + 1))
+    elif case.cls == "Dict":
+        a0, a1 = sstr("a0"), sstr("a1")
+        requires(And(length(a0) >= 1, length(a1) >= 1))
+        obj = OBJ(PS, "Dict", _before=mklist([sref("b0"), sref("b1")]), _after=mklist([a0, a1]))
+        member = _z3.Or(c0 == _z3.SubString(a0.t, 0, 1), c0 == _z3.SubString(a1.t, 0, 1))
+    else:
+        obj = OBJ(PS, "MultiDigit", _base=case.base, _digits=case.digits)
+        member = _z3.And(alnum, value < case.base ** case.digits)
+    o = call(REAL(PS, case.cls + ".deserialize"), obj, env, text, idx)
+    if o.raised:
+        return          # (exception safety is C17's contract)
+    if o.value is not None:
+        check("nothing-is-read-at-the-end-of-the-text", idx < length(text))
+        check("the-first-character-belongs-to-the-leaf's-class", mk_bool(member))
+
+
+def leading_class_validation():
+    """native: the symbolic class predicates above and `leading_class` agree on every character code 0..127"""
+    n = 0
+    for code in range(128):
+        al = 48 <= code <= 57 or 97 <= code <= 122
+        val = code - 48 if code <= 57 else code - 87
+        assert leading_class("HexInt")(code) == (48 <= code <= 57 or 97 <= code <= 102 or code == 45 or code == 43)
+        for off in range(0, 35):
+            assert leading_class("Spaces", offset=off)(code) == (al and val > off)
+        for (mi, ms) in ((4, 2), (8, 3), (35, 0), (0, 35)):
+            assert leading_class("IntSpaces", max_int=mi, max_num_spaces=ms)(code) == (al and val < (mi + 1) * (ms + 1))
+        for (b, d) in ((2, 5), (3, 3), (6, 2), (36, 1)):
+            assert leading_class("MultiDigit", base=b, digits=d)(code) == (al and val < b ** d)
+        if al:
+            assert int(chr(code), 36) == val
+        n += 1
+    return n
